@@ -15,6 +15,11 @@ META = dict(
           "is false for segments sharing an end point (C03_structural, C03_structural_all_rings; refuted without that hypothesis "
           "by a witness ring, C03_structural_without_leaf_hypothesis_refuted), CleanCollinear's loop terminates within a quadratic "
           "fuel bound (C03_clean_collinear_terminates_partial); soundness of the extracted structural checker. "
+          "Leaf theorems over the definitions REGENERATED from the C++ on every run: TopX, GetClosestPointOnSegment and the default "
+          "GetSegmentIntersectPt return points in the bounding box of their edge for |coordinates| <= 2^52; TopX and "
+          "GetClosestPointOnSegment are within 1/2 + 2^-25 per axis of the exact abscissa / projection for |coordinates| <= 2^25; "
+          "a model of AddNewIntersectNode's out-of-scanbeam repair over those leaves (exact tie with the real member function) "
+          "with the theorem that the repaired point is that close to one of the two edges in all six branches. "
           "The model (with bit-exact binary64 leaves) is tied to the code by exact comparison of BuildPaths64 with the "
           "extracted model on the raw OutRec rings of real runs and on random synthetic rings.  Every clause of the property "
           "is validated by extracted exact checkers on a degenerate/huge-coordinate stream (structural, bbox) and on "
@@ -23,7 +28,8 @@ META = dict(
     note=("Trusted: Coq kernel, extraction, OCaml driver, C++ harness with private access, generators.  Proved for the ring "
           "finalisation model only (structural clause, all rings, all float behaviours satisfying the stated leaf hypothesis; "
           "termination of FixSelfIntersects is not proved); "
-          "the bounding-box and geometric clauses are validated by exact checkers on generated inputs, not proved; the leaf "
+          "the bounding-box and geometric clauses are proved at leaf level only (that every solution vertex is an input vertex or a "
+          "leaf result is validated by exact checkers on generated inputs, not proved); the leaf "
           "hypothesis on the binary64 SegmentsIntersect is validated on generated shared-end-point configurations.  Known "
           "findings (geometric clause): vertices off by rounding beyond 2^53, Union of a solution relinking paths at touching "
           "vertices, adjacent regions along coincident edges not merged."),
